@@ -33,8 +33,15 @@ def describe(tier, seed):
 
 
 def _try(f, *a):
+    """Call f; a bytes argument to a decoder is wrapped in a stream with a read budget."""
+    from vmc.core.explore import BudgetExceeded
+
+    if getattr(f, "__name__", "") == "decode":
+        a = tuple(TS.CountingIO(x) if isinstance(x, (bytes, bytearray)) else x for x in a)
     try:
         return ("ok", f(*a))
+    except BudgetExceeded:
+        return ("exc", "NonTerminating", "read budget exceeded")
     except Exception as e:  # noqa
         return ("exc", type(e).__name__, str(e)[:80])
 
@@ -111,7 +118,7 @@ def check_patterns(rep, part, tier):
         width = R.size_of(node.desc)
         for pat in pattern_set(width, tier):
             exp, _ = R.dec(node.desc, pat, 0)
-            st = BytesIO(pat + b"\x5a")
+            st = TS.CountingIO(pat + b"\x5a")
             d = _try(node.decode, st)
             ok = d[0] == "ok" and node.same(d[1], exp) and st.tell() == width
             rep.case((name, pat), outcome="ok" if ok else "differs")
@@ -150,7 +157,7 @@ def check_golden(rep):
         reg = t[1]
         try:
             e = reg.encode(*v) if want == "DATE_AND_TIME" else reg.encode(v)
-            st = BytesIO(bytes(e) + b"\x00" * 8)
+            st = TS.CountingIO(bytes(e) + b"\x00" * 8)
             reg.decode(st)
             ok = len(e) == width and st.tell() == width
         except Exception as ex:  # noqa
@@ -162,65 +169,7 @@ def check_golden(rep):
     rep.sample({"golden_codes": len(g)})
 
 
-# ---- generated structure layouts -------------------------------------------------------------
-def structtag_layouts():
-    """(label, builder) pairs; builder() -> (lib StructTag type, reference descriptor, value list)."""
-    import pycomm3.cip as C
-    from pycomm3.custom_types import StructTag, FixedSizeString
-
-    def atom(name):
-        d = {"SINT": ("int", 1, True), "INT": ("int", 2, True), "DINT": ("int", 4, True), "LINT": ("int", 8, True),
-             "REAL": ("real", 4), "DWORD": ("bits", 4), "USINT": ("int", 1, False), "UINT": ("int", 2, False), "LREAL": ("real", 8)}[name]
-        return getattr(C, name), d
-
-    def build(size, members, bits, hidden):
-        """members: (name, libtype-or-(lib,desc), desc, offset); bits: (name, offset, bit)"""
-        lib = StructTag(*[(lt(n), off) for n, lt, d, off in members], bit_members={n: (o, b) for n, o, b in bits},
-                        private_members=set(hidden), struct_size=size)
-        desc = ("structtag", size, tuple((n, d, off) for n, lt, d, off in members), tuple(bits), frozenset(hidden))
-        return lib, desc
-
-    out = []
-
-    def L1():  # packed BOOLs spanning two hidden host bytes, then padded members
-        S, sd = atom("SINT"); I, idd = atom("INT"); D, dd = atom("DINT"); Rl, rd = atom("REAL")
-        members = [("ZZZZZZZZZZUdt0", S, sd, 0), ("ZZZZZZZZZZUdt9", S, sd, 1), ("i", I, idd, 2), ("d", D, dd, 4), ("s", S, sd, 8), ("r", Rl, rd, 12)]
-        bits = [(f"b{k}", k // 8, k % 8) for k in range(11)]
-        lib, desc = build(16, members, bits, ["ZZZZZZZZZZUdt0", "ZZZZZZZZZZUdt9"])
-        vals = []
-        for k in range(12):
-            v = {f"b{j}": (j == k) for j in range(11)}
-            v.update(i=[-32768, 32767, 0, 1, -1, 0x55AA][k % 6], d=[-(1 << 31), (1 << 31) - 1, 0, 1, -1, 0x11223344][k % 6], s=[-128, 127, 0, 1, -1, 0x5A][k % 6], r=[0.0, -1.5, 3.4028234663852886e38, 1e-45, 100.25, -0.0][k % 6])
-            vals.append(v)
-        vals.append({**{f"b{j}": True for j in range(11)}, "i": -1, "d": -1, "s": -1, "r": -1.0})
-        return lib, desc, vals
-    out.append(("packed-bools+padding", L1))
-
-    def L2():  # arrays, DWORD member (bool array), LINT at 8-alignment
-        S, sd = atom("SINT"); D, dd = atom("DINT"); W, wd = atom("DWORD"); Li, ld = atom("LINT")
-        members = [("arr", C.Array(5, S), ("array", 5, sd), 0), ("bools", C.Array(2, W), ("array", 2, wd), 8), ("big", Li, ld, 16), ("dar", C.Array(3, D), ("array", 3, dd), 24)]
-        lib, desc = build(36, members, [], [])
-        vals = []
-        for k in range(6):
-            vals.append({"arr": [(k * 31 + j) % 256 - 128 for j in range(5)], "bools": [((k + j) % 3 == 0) for j in range(64)],
-                         "big": [-(1 << 63), (1 << 63) - 1, 0, 1, -1, 0x0102030405060708][k], "dar": [k - 1, -(1 << 31) + k, (1 << 31) - 1 - k]})
-        return lib, desc, vals
-    out.append(("arrays+dword+lint", L2))
-
-    def L3():  # nested structure, array of nested structures, string member
-        S, sd = atom("SINT"); I, idd = atom("INT"); D, dd = atom("DINT")
-        inner_lib, inner_desc = build(8, [("h", S, sd, 0), ("x", I, idd, 2), ("y", D, dd, 4)], [("f", 0, 0), ("g", 0, 7)], ["h"])
-        F = FixedSizeString(6)
-        members = [("n", D, dd, 0), ("in1", inner_lib, inner_desc, 4), ("ins", C.Array(2, inner_lib), ("array", 2, inner_desc), 12),
-                   ("str", F, ("fixstr", 6, 4), 28)]
-        lib, desc = build(40, members, [], [])
-        vals = []
-        for k in range(5):
-            iv = lambda j: {"x": [0, -1, 32767, -32768, 5][(k + j) % 5], "y": [0, -1, (1 << 31) - 1, -(1 << 31), 7][(k + j) % 5], "f": bool((k + j) % 2), "g": bool((k + j) % 3 == 0)}
-            vals.append({"n": k - 2, "in1": iv(0), "ins": [iv(1), iv(2)], "str": ["", "a", "abcdef", "\xe9\xff", "xyz"][k]})
-        return lib, desc, vals
-    out.append(("nested+array-of-struct+string", L3))
-    return out
+from .typespace import structtag_layouts  # noqa: E402
 
 
 def _masked(b, mask):
@@ -238,7 +187,7 @@ def check_structtag(rep):
             # decode an image whose pad / hidden bytes hold 0xA5 so that a wrong offset shows
             img = bytes((e & m) | (0xA5 & ~m & 0xFF) for e, m in zip(exp, mask))
             want, _ = R.dec(desc, img, 0)
-            st = BytesIO(img + b"\x77")
+            st = TS.CountingIO(img + b"\x77")
             d = _try(lib.decode, st)
             ok_d = d[0] == "ok" and TS.same_value(d[1], want) and st.tell() == len(img)
             rep.case(("structtag", label, vi), outcome="ok" if ok_e and ok_d else "differs", calls=2)
@@ -269,7 +218,7 @@ def check_fixstr(rep, tier):
                 ok_e = r[0] == "ok" and bytes(r[1]) == exp
                 # controller images keep old characters after LEN: they must be ignored
                 img = exp[: lb + n] + b"\xA5" * (cap - n)
-                st = BytesIO(img + b"\x77")
+                st = TS.CountingIO(img + b"\x77")
                 d = _try(F.decode, st)
                 ok_d = d[0] == "ok" and d[1] == s and st.tell() == len(img)
                 rep.case(("fixstr", cap, lb, n), outcome="ok" if ok_e and ok_d else "differs", calls=2)
